@@ -73,6 +73,20 @@ type vcase struct {
 	Spec vspec
 	Pos  position
 	X, Y pref.Value
+	// message values only: the real comparer is handed dynamicValue of that side (dyn.go)
+	DynX, DynY bool
+}
+
+func (c vcase) reps() (x, y pref.Value) {
+	fd := c.Pos.fd()
+	x, y = c.X, c.Y
+	if c.DynX {
+		x = dynamicValue(fd, x)
+	}
+	if c.DynY {
+		y = dynamicValue(fd, y)
+	}
+	return x, y
 }
 
 type vcaseJSON struct {
@@ -82,6 +96,8 @@ type vcaseJSON struct {
 	Field string  `json:"field"`
 	X     valJSON `json:"x"`
 	Y     valJSON `json:"y"`
+	DynX  bool    `json:"dyn_x,omitempty"`
+	DynY  bool    `json:"dyn_y,omitempty"`
 }
 
 func valToJSON(fd pref.FieldDescriptor, v pref.Value) valJSON {
@@ -166,7 +182,7 @@ func valFromJSON(fd pref.FieldDescriptor, j valJSON) (pref.Value, error) {
 
 func (c vcase) json() vcaseJSON {
 	fd := c.Pos.fd()
-	return vcaseJSON{"vcmp", c.Spec, string(c.Pos.msg.ProtoReflect().Descriptor().FullName()), c.Pos.field, valToJSON(fd, c.X), valToJSON(fd, c.Y)}
+	return vcaseJSON{"vcmp", c.Spec, string(c.Pos.msg.ProtoReflect().Descriptor().FullName()), c.Pos.field, valToJSON(fd, c.X), valToJSON(fd, c.Y), c.DynX, c.DynY}
 }
 
 func (j vcaseJSON) decode() (vcase, error) {
@@ -181,7 +197,7 @@ func (j vcaseJSON) decode() (vcase, error) {
 			if err != nil {
 				return vcase{}, err
 			}
-			return vcase{Spec: j.Spec, Pos: p, X: x, Y: y}, nil
+			return vcase{Spec: j.Spec, Pos: p, X: x, Y: y, DynX: j.DynX, DynY: j.DynY}, nil
 		}
 	}
 	return vcase{}, fmt.Errorf("unknown position %s.%s", j.Type, j.Field)
@@ -198,7 +214,8 @@ func callV(c cmp.Value, fd pref.FieldDescriptor, x, y pref.Value) string {
 func (c vcase) runCode() [3]string {
 	fd := c.Pos.fd()
 	cv := c.Spec.build()
-	return [3]string{callV(cv, fd, c.X, c.Y), callV(cv, fd, c.Y, c.X), callV(cv, fd, c.X, c.X)}
+	x, y := c.reps()
+	return [3]string{callV(cv, fd, x, y), callV(cv, fd, y, x), callV(cv, fd, x, x)}
 }
 
 func (c vcase) lines() []string {
@@ -488,6 +505,9 @@ func runValues(f lib.Flags, res *lib.Result, drv *lib.Driver, ms *monitors) {
 				}
 			}
 			c := vcase{Spec: spec, Pos: p, X: x, Y: y}
+			if p.fd().Kind() == pref.MessageKind {
+				c.DynX, c.DynY = g.r.Intn(3) == 0, g.r.Intn(3) == 0
+			}
 			cases = append(cases, c)
 			lines = append(lines, c.lines()...)
 		}
